@@ -99,8 +99,9 @@ func zzH_C05() {
 		}
 		ep := zzEpoch()
 		got, err, pan := zzTry(f, doc)
-		zzAssert(pan == nil, "no-panic")
-		if pan != nil {
+		_, boom := pan.(zzBoom) // the user function's own panic, recovered by the caller: a failed call
+		zzAssert(pan == nil || boom, "no-panic")
+		if pan != nil && !boom {
 			return
 		}
 		zzAssert(zzTreeUnchanged(), "parsed-tree-unchanged")
@@ -109,9 +110,17 @@ func zzH_C05() {
 		zzAssert(zzFresh(got, ep), "result-slice-is-fresh")
 		// same outcome as a fresh Retrieve of the same path on this document
 		fresh, ferr, fpan := zzTryRetrieve(path, doc, cfg)
-		zzAssert(fpan == nil, "no-panic")
-		if fpan != nil {
+		_, fboom := fpan.(zzBoom)
+		zzAssert(fpan == nil || fboom, "no-panic")
+		if fpan != nil && !fboom {
 			return
+		}
+		zzAssert(boom == fboom, "same-outcome-as-fresh-retrieve")
+		if boom || fboom {
+			results = append(results, nil)
+			snaps = append(snaps, nil)
+			errs = append(errs, nil)
+			continue
 		}
 		zzAssert((err == nil) == (ferr == nil), "same-outcome-as-fresh-retrieve")
 		if err == nil && ferr == nil {
@@ -262,8 +271,29 @@ func zzCfgNamed(name string) []Config {
 		return []Config{c}
 	case "empty":
 		return []Config{{}}
+	case "shared":
+		// one Config object used by several calls of the same run
+		return []Config{*zzShared()}
+	case "shared+extra":
+		// the shared Config first, another one after it (only the first counts)
+		e := Config{}
+		e.SetFilterFunction("onlyb", func(v interface{}) (interface{}, error) { return zzWrapped{fn: "onlyb", arg: v}, nil })
+		e.SetAggregateFunction("onlyagg", func(v []interface{}) (interface{}, error) { return zzWrapped{fn: "onlyagg", arg: nil}, nil })
+		e.SetAccessorMode()
+		return []Config{*zzShared(), e}
 	}
 	return nil
+}
+
+var zzSharedCfg *Config
+
+func zzShared() *Config {
+	if zzSharedCfg == nil {
+		c := Config{}
+		zzAddFuncs(&c)
+		zzSharedCfg = &c
+	}
+	return zzSharedCfg
 }
 
 // zzH_C19: a history of Parse calls followed by the call under test; the
